@@ -6,6 +6,7 @@ import DW.Model.Dump
 import DW.Lemmas.RoundTrip
 import DW.Lemmas.GenDumpSem
 import DW.Lemmas.GenDumpRefine
+import DW.Lemmas.GenDumpTotal
 
 namespace DW.Props.C11
 open DW
@@ -268,6 +269,26 @@ theorem C11_dump_model_realises_generated_code (p : Char → Bool) (std : Std) (
       emitsFrom_eq eff args fks _ _ vals fks 0 (by simp)]
     rfl
   · exact dumpFields_eq_realise std ts cfg eff args ci vals _ _ fks hfind Hd' Ho' Hk
+
+open DW.GenDump in
+/-- **C11 (the generated code, every instance).**  Without any assumption about the comparisons: for every class, Meta, call
+arguments and instance, running the body the generator writes in the environment the generator sets up gives exactly the reference
+run `refRun` — the skip-defaults tests of all non-excluded defaulted fields first, in field order (the call raises at the first one
+that raises), then field by field the field's own `SkipIf` or else `Meta.skip_if` unless the field is already skipped (again raising
+where the comparison raises), the catch-all items, and the tag entry.  In particular a comparison is evaluated exactly when Python
+evaluates it (`or` / `and` short-circuit), and a comparison that raises makes `to_dict` raise rather than select or drop the field. -/
+theorem C11_generated_code_total (p : Char → Bool) (eff : MetaCfg) (args : DumpArgs) (fks : List (FieldInfo × S)) (vals : S → PyVal) :
+    run (envOf eff args fks vals) (genBody p (ginOf eff fks)) = refRun eff args vals fks :=
+  run_genBody_total p _ eff args fks vals (world_envOf p eff args fks vals)
+
+open DW.GenDump in
+/-- … and the interpreter is complete for the generator: the body generated for any class, run on any instance with any arguments,
+never reaches a statement or expression form outside `DW/Model/GenDumpSem.lean` — every failing run is a Python exception of a
+comparison (`SErr.raised`). -/
+theorem C11_generated_code_never_stuck (p : Char → Bool) (eff : MetaCfg) (args : DumpArgs) (fks : List (FieldInfo × S))
+    (vals : S → PyVal) : run (envOf eff args fks vals) (genBody p (ginOf eff fks)) ≠ .error .stuck := by
+  rw [C11_generated_code_total]
+  exact refRun_not_stuck eff args vals fks
 
 namespace Example
 open DW.GenDump
